@@ -157,7 +157,7 @@ package log
 
 //@ func String
 //@   modifies nothing
-//@   ensures[C01,C07:string-field] result.Key == key && result.Type == ValueTypeString && result.Num == len(val)
+//@   ensures[C01,C07:string-field] result.Key == key && result.Type == ValueTypeString && result.Num == len(val) && dyn(result.Any, *byte) && str_of(as(result.Any, *byte), result.Num) == val
 
 //@ func Trace
 //@   requires tag != nil
@@ -1009,4 +1009,278 @@ package log
 //@   ensures[C08:top-level-marshalled] old(enc.jsonDepth) == 0 && lastMarshalErr == nil ==> enc.buf.out == bapp(old(enc.buf.out), content(lastMarshal))
 //@   ensures[C08:top-level-error-text-escaped] old(enc.jsonDepth) == 0 && lastMarshalErr != nil ==> Ext(old(enc.buf.out), enc.buf.out, RP(error.Error(lastMarshalErr), len(error.Error(lastMarshalErr))))
 //@   ensures[C08:nested-as-json] old(enc.jsonDepth) > 0 && lastMarshalErr == nil ==> enc.buf.out == bapp(old(preV(enc.jsonEncoder)), content(lastMarshal))
+
+
+// ---- C07 / C08: fields against the Encoder interface ---------------------------------------------------
+// Interface-level contracts: the logical structure stack stk[ifval(enc)] and the abstract token trace
+// tok[ifval(enc)] of an encoder (kinds: 20 key, 21 bool, 22 int, 23 uint, 24 float bits, 25 string,
+// 26 reflected value, 27/28 object begin/end, 29/30 array begin/end).  encState stands for whatever else
+// an implementation changes (its buffer, its bookkeeping).
+//@ ghost var tok map[ref]Trace
+//@ ghost var encState map[ref]int
+//@ spec fun encAt(enc Encoder) Stk = stk[ifval(enc)]
+//@ iface Encoder.AppendEncoderBegin
+//@   requires this != nil && stk_ok(stk[ifval(this)]) && value_legal(stk[ifval(this)])
+//@   modifies encState[ifval(this)]
+//@   ghost stk[ifval(this)] = stk_push(old(stk[ifval(this)]), 1)
+//@   ghost tok[ifval(this)] = tsnoc(old(tok[ifval(this)]), 27, 0, 0, 0, "")
+
+//@ iface Encoder.AppendEncoderEnd
+//@   requires this != nil && stk_ok(stk[ifval(this)]) && end_obj_legal(stk[ifval(this)])
+//@   modifies encState[ifval(this)]
+//@   ghost stk[ifval(this)] = stk_pop(old(stk[ifval(this)]))
+//@   ghost tok[ifval(this)] = tsnoc(old(tok[ifval(this)]), 28, 0, 0, 0, "")
+
+//@ iface Encoder.AppendObjectBegin
+//@   requires this != nil && stk_ok(stk[ifval(this)]) && value_legal(stk[ifval(this)])
+//@   modifies encState[ifval(this)]
+//@   ghost stk[ifval(this)] = stk_push(old(stk[ifval(this)]), 1)
+//@   ghost tok[ifval(this)] = tsnoc(old(tok[ifval(this)]), 27, 0, 0, 0, "")
+
+//@ iface Encoder.AppendObjectEnd
+//@   requires this != nil && stk_ok(stk[ifval(this)]) && end_obj_legal(stk[ifval(this)])
+//@   modifies encState[ifval(this)]
+//@   ghost stk[ifval(this)] = stk_pop(old(stk[ifval(this)]))
+//@   ghost tok[ifval(this)] = tsnoc(old(tok[ifval(this)]), 28, 0, 0, 0, "")
+
+//@ iface Encoder.AppendArrayBegin
+//@   requires this != nil && stk_ok(stk[ifval(this)]) && value_legal(stk[ifval(this)])
+//@   modifies encState[ifval(this)]
+//@   ghost stk[ifval(this)] = stk_push(old(stk[ifval(this)]), 2)
+//@   ghost tok[ifval(this)] = tsnoc(old(tok[ifval(this)]), 29, 0, 0, 0, "")
+
+//@ iface Encoder.AppendArrayEnd
+//@   requires this != nil && stk_ok(stk[ifval(this)]) && end_arr_legal(stk[ifval(this)])
+//@   modifies encState[ifval(this)]
+//@   ghost stk[ifval(this)] = stk_pop(old(stk[ifval(this)]))
+//@   ghost tok[ifval(this)] = tsnoc(old(tok[ifval(this)]), 30, 0, 0, 0, "")
+
+//@ iface Encoder.AppendKey
+//@   requires this != nil && stk_ok(stk[ifval(this)]) && key_legal(stk[ifval(this)])
+//@   modifies encState[ifval(this)]
+//@   ghost stk[ifval(this)] = stk_key(old(stk[ifval(this)]))
+//@   ghost tok[ifval(this)] = tsnoc(old(tok[ifval(this)]), 20, 0, 0, 0, key)
+
+//@ iface Encoder.AppendBool
+//@   requires this != nil && stk_ok(stk[ifval(this)]) && value_legal(stk[ifval(this)])
+//@   modifies encState[ifval(this)]
+//@   ghost stk[ifval(this)] = stk_child_done(old(stk[ifval(this)]))
+//@   ghost tok[ifval(this)] = tsnoc(old(tok[ifval(this)]), 21, 0, (v ? 1 : 0), 0, "")
+
+//@ iface Encoder.AppendInt64
+//@   requires this != nil && stk_ok(stk[ifval(this)]) && value_legal(stk[ifval(this)])
+//@   modifies encState[ifval(this)]
+//@   ghost stk[ifval(this)] = stk_child_done(old(stk[ifval(this)]))
+//@   ghost tok[ifval(this)] = tsnoc(old(tok[ifval(this)]), 22, 0, v, 0, "")
+
+//@ iface Encoder.AppendUint64
+//@   requires this != nil && stk_ok(stk[ifval(this)]) && value_legal(stk[ifval(this)])
+//@   modifies encState[ifval(this)]
+//@   ghost stk[ifval(this)] = stk_child_done(old(stk[ifval(this)]))
+//@   ghost tok[ifval(this)] = tsnoc(old(tok[ifval(this)]), 23, 0, v, 0, "")
+
+//@ iface Encoder.AppendFloat64
+//@   requires this != nil && stk_ok(stk[ifval(this)]) && value_legal(stk[ifval(this)])
+//@   modifies encState[ifval(this)]
+//@   ghost stk[ifval(this)] = stk_child_done(old(stk[ifval(this)]))
+//@   ghost tok[ifval(this)] = tsnoc(old(tok[ifval(this)]), 24, 0, v, 0, "")
+
+//@ iface Encoder.AppendString
+//@   requires this != nil && stk_ok(stk[ifval(this)]) && value_legal(stk[ifval(this)])
+//@   modifies encState[ifval(this)]
+//@   ghost stk[ifval(this)] = stk_child_done(old(stk[ifval(this)]))
+//@   ghost tok[ifval(this)] = tsnoc(old(tok[ifval(this)]), 25, 0, 0, 0, v)
+
+//@ iface Encoder.AppendReflect
+//@   requires this != nil && stk_ok(stk[ifval(this)]) && value_legal(stk[ifval(this)])
+//@   modifies encState[ifval(this)]
+//@   ghost stk[ifval(this)] = stk_child_done(old(stk[ifval(this)]))
+//@   ghost tok[ifval(this)] = tsnoc(old(tok[ifval(this)]), 26, 0, ifval(v), iftag(v), "")
+
+// inside an array: element position; afterwards still inside the same array
+//@ spec fun inArray(s Stk) bool = stk_ok(s) && fkind(shead(s)) == 2 && !fpend(shead(s)) && end_arr_legal(s)
+//@ spec fun sameFrame(s Stk, s0 Stk) bool = stail(s) == stail(s0) && fkind(shead(s)) == fkind(shead(s0)) && !fpend(shead(s)) && fcnt(shead(s)) >= fcnt(shead(s0))
+//@ iface ArrayValue.EncodeArray
+//@   requires enc != nil && inArray(stk[ifval(enc)])
+//@   modifies stk[ifval(enc)], tok[ifval(enc)], encState[ifval(enc)]
+//@   ensures inArray(stk[ifval(enc)]) && sameFrame(stk[ifval(enc)], old(stk[ifval(enc)]))
+
+// the payload of a field agrees with its type tag (what the constructors establish)
+//@ spec fun fieldWF(f Field) bool = (f.Type == 4 ==> dyn(f.Any, *byte)) && (f.Type == 6 ==> implements(f.Any, ArrayValue)) && (f.Type == 7 ==> dyn(f.Any, []Field)) && (f.Type == 8 ==> dyn(f.Any, gomap[string]any))
+//@ spec fun signed64(u int) int = u >= 9223372036854775808 ? u - 18446744073709551616 : u
+
+//@ func (Field).Encode
+//@   requires enc != nil && key_legal(stk[ifval(enc)]) && stk_ok(stk[ifval(enc)]) && fieldWF(f)
+//@   requires f.Type == 7 ==> fieldsWF(as(f.Any, []Field))
+//@   modifies stk[ifval(enc)], tok[ifval(enc)], encState[ifval(enc)], elems(string)
+//@   ensures[C07,C08:member-position-kept] key_legal(stk[ifval(enc)]) && stk_ok(stk[ifval(enc)]) && sameFrame(stk[ifval(enc)], old(stk[ifval(enc)]))
+//@   ensures[C07,C08:exactly-one-member] 0 <= f.Type && f.Type <= 7 ==> stk[ifval(enc)] == stk_child_done(old(stk[ifval(enc)]))
+//@   ensures[C07:bool-token] f.Type == 0 ==> tok[ifval(enc)] == tsnoc(tsnoc(old(tok[ifval(enc)]), 20, 0, 0, 0, f.Key), 21, 0, (f.Num != 0 ? 1 : 0), 0, "")
+//@   ensures[C07:int-token-signed] f.Type == 1 ==> tok[ifval(enc)] == tsnoc(tsnoc(old(tok[ifval(enc)]), 20, 0, 0, 0, f.Key), 22, 0, signed64(f.Num), 0, "")
+//@   ensures[C07:uint-token] f.Type == 2 ==> tok[ifval(enc)] == tsnoc(tsnoc(old(tok[ifval(enc)]), 20, 0, 0, 0, f.Key), 23, 0, f.Num, 0, "")
+//@   ensures[C07:float-token-bit-exact] f.Type == 3 ==> tok[ifval(enc)] == tsnoc(tsnoc(old(tok[ifval(enc)]), 20, 0, 0, 0, f.Key), 24, 0, f.Num, 0, "")
+//@   ensures[C07:string-token] f.Type == 4 ==> tok[ifval(enc)] == tsnoc(tsnoc(old(tok[ifval(enc)]), 20, 0, 0, 0, f.Key), 25, 0, 0, 0, str_of(as(f.Any, *byte), f.Num))
+//@   ensures[C07:reflect-token] f.Type == 5 ==> tok[ifval(enc)] == tsnoc(tsnoc(old(tok[ifval(enc)]), 20, 0, 0, 0, f.Key), 26, 0, ifval(f.Any), iftag(f.Any), "")
+//@   loop 1 invariant[C07:map-range] 0 <= $k
+//@   loop 1 invariant[C07:map-members] key_legal(stk[ifval(enc)]) && stk_ok(stk[ifval(enc)]) && sameFrame(stk[ifval(enc)], old(stk[ifval(enc)]))
+
+// (recursive: the fields of a nested object are well-formed too)
+//@ spec rec fun fieldsWF(fs []Field) bool = forall k int :: 0 <= k && k < len(fs) ==> fieldWF(fs[k]) && (fs[k].Type == 7 ==> fieldsWF(as(fs[k].Any, []Field)))
+
+//@ func EncodeFields
+//@   requires enc != nil && key_legal(stk[ifval(enc)]) && stk_ok(stk[ifval(enc)]) && fieldsWF(fields)
+//@   modifies stk[ifval(enc)], tok[ifval(enc)], encState[ifval(enc)], elems(string)
+//@   ensures[C07,C08:member-position-kept] key_legal(stk[ifval(enc)]) && stk_ok(stk[ifval(enc)]) && sameFrame(stk[ifval(enc)], old(stk[ifval(enc)]))
+//@   loop 1 invariant[C07:range] 0 <= $k && $k <= len(fields)
+//@   loop 1 invariant[C07:members] key_legal(stk[ifval(enc)]) && stk_ok(stk[ifval(enc)]) && sameFrame(stk[ifval(enc)], old(stk[ifval(enc)]))
+
+//@ func (bools).EncodeArray
+//@   requires enc != nil && inArray(stk[ifval(enc)])
+//@   modifies stk[ifval(enc)], tok[ifval(enc)], encState[ifval(enc)]
+//@   ensures[C07,C08:elements-stay-in-the-array] inArray(stk[ifval(enc)]) && sameFrame(stk[ifval(enc)], old(stk[ifval(enc)]))
+//@   ensures[C07:one-element-per-item] fcnt(shead(stk[ifval(enc)])) == old(fcnt(shead(stk[ifval(enc)]))) + len(arr)
+//@   loop 1 invariant[C07:range] 0 <= $k && $k <= len(arr)
+//@   loop 1 invariant[C07:in-array] inArray(stk[ifval(enc)]) && sameFrame(stk[ifval(enc)], old(stk[ifval(enc)])) && fcnt(shead(stk[ifval(enc)])) == old(fcnt(shead(stk[ifval(enc)]))) + $k
+
+//@ func (sliceOfInt).EncodeArray
+//@   requires enc != nil && inArray(stk[ifval(enc)])
+//@   modifies stk[ifval(enc)], tok[ifval(enc)], encState[ifval(enc)]
+//@   ensures[C07,C08:elements-stay-in-the-array] inArray(stk[ifval(enc)]) && sameFrame(stk[ifval(enc)], old(stk[ifval(enc)]))
+//@   ensures[C07:one-element-per-item] fcnt(shead(stk[ifval(enc)])) == old(fcnt(shead(stk[ifval(enc)]))) + len(arr)
+//@   loop 1 invariant[C07:range] 0 <= $k && $k <= len(arr)
+//@   loop 1 invariant[C07:in-array] inArray(stk[ifval(enc)]) && sameFrame(stk[ifval(enc)], old(stk[ifval(enc)])) && fcnt(shead(stk[ifval(enc)])) == old(fcnt(shead(stk[ifval(enc)]))) + $k
+
+//@ func (sliceOfUint).EncodeArray
+//@   requires enc != nil && inArray(stk[ifval(enc)])
+//@   modifies stk[ifval(enc)], tok[ifval(enc)], encState[ifval(enc)]
+//@   ensures[C07,C08:elements-stay-in-the-array] inArray(stk[ifval(enc)]) && sameFrame(stk[ifval(enc)], old(stk[ifval(enc)]))
+//@   ensures[C07:one-element-per-item] fcnt(shead(stk[ifval(enc)])) == old(fcnt(shead(stk[ifval(enc)]))) + len(arr)
+//@   loop 1 invariant[C07:range] 0 <= $k && $k <= len(arr)
+//@   loop 1 invariant[C07:in-array] inArray(stk[ifval(enc)]) && sameFrame(stk[ifval(enc)], old(stk[ifval(enc)])) && fcnt(shead(stk[ifval(enc)])) == old(fcnt(shead(stk[ifval(enc)]))) + $k
+
+//@ func (sliceOfFloat).EncodeArray
+//@   requires enc != nil && inArray(stk[ifval(enc)])
+//@   modifies stk[ifval(enc)], tok[ifval(enc)], encState[ifval(enc)]
+//@   ensures[C07,C08:elements-stay-in-the-array] inArray(stk[ifval(enc)]) && sameFrame(stk[ifval(enc)], old(stk[ifval(enc)]))
+//@   ensures[C07:one-element-per-item] fcnt(shead(stk[ifval(enc)])) == old(fcnt(shead(stk[ifval(enc)]))) + len(arr)
+//@   loop 1 invariant[C07:range] 0 <= $k && $k <= len(arr)
+//@   loop 1 invariant[C07:in-array] inArray(stk[ifval(enc)]) && sameFrame(stk[ifval(enc)], old(stk[ifval(enc)])) && fcnt(shead(stk[ifval(enc)])) == old(fcnt(shead(stk[ifval(enc)]))) + $k
+
+//@ func (sliceOfString).EncodeArray
+//@   requires enc != nil && inArray(stk[ifval(enc)])
+//@   modifies stk[ifval(enc)], tok[ifval(enc)], encState[ifval(enc)]
+//@   ensures[C07,C08:elements-stay-in-the-array] inArray(stk[ifval(enc)]) && sameFrame(stk[ifval(enc)], old(stk[ifval(enc)]))
+//@   ensures[C07:one-element-per-item] fcnt(shead(stk[ifval(enc)])) == old(fcnt(shead(stk[ifval(enc)]))) + len(arr)
+//@   loop 1 invariant[C07:range] 0 <= $k && $k <= len(arr)
+//@   loop 1 invariant[C07:in-array] inArray(stk[ifval(enc)]) && sameFrame(stk[ifval(enc)], old(stk[ifval(enc)])) && fcnt(shead(stk[ifval(enc)])) == old(fcnt(shead(stk[ifval(enc)]))) + $k
+
+
+//@ func Any
+//@   modifies nothing
+//@   ensures[C07:any-key] result.Key == key && fieldWF(result) && result.Type != 7 && result.Type != 8
+//@   ensures[C07:any-nil] value == nil ==> result.Type == 5 && result.Any == nil
+//@   ensures[C07:any-bool] dyn(value, bool) ==> result.Type == 0 && result.Num == (as(value, bool) ? 1 : 0)
+//@   ensures[C07:any-int8] dyn(value, int8) ==> result.Type == 1 && signed64(result.Num) == as(value, int8)
+//@   ensures[C07:any-int] dyn(value, int) ==> result.Type == 1 && signed64(result.Num) == as(value, int)
+//@   ensures[C07:any-int64] dyn(value, int64) ==> result.Type == 1 && signed64(result.Num) == as(value, int64)
+//@   ensures[C07:any-uint8] dyn(value, uint8) ==> result.Type == 2 && result.Num == as(value, uint8)
+//@   ensures[C07:any-uint64] dyn(value, uint64) ==> result.Type == 2 && result.Num == as(value, uint64)
+//@   ensures[C07:any-float64] dyn(value, float64) ==> result.Type == 3 && result.Num == as(value, float64)
+//@   ensures[C07:any-string] dyn(value, string) ==> result.Type == 4 && str_of(as(result.Any, *byte), result.Num) == as(value, string)
+//@   ensures[C07:any-int-pointer-nil] dyn(value, *int) && as(value, *int) == nil ==> result.Type == 5 && result.Any == nil
+
+// ---- C07: field constructors: the field denotes the logged value -------------------------------------------
+//@ func Nil
+//@   modifies nothing
+//@   ensures[C07:nil-as-null] result.Key == key && result.Type == 5 && result.Any == nil
+
+//@ func Reflect
+//@   modifies nothing
+//@   ensures[C07:reflect] result.Key == key && result.Type == 5 && result.Any == val
+
+//@ func Bool
+//@   modifies nothing
+//@   ensures[C07:bool] result.Key == key && result.Type == 0 && result.Num == (val ? 1 : 0)
+
+//@ func BoolPtr
+//@   modifies nothing
+//@   ensures[C07:nil-pointer-as-null] val == nil ==> result.Key == key && result.Type == 5 && result.Any == nil
+//@   ensures[C07:pointee] val != nil ==> result.Key == key && result.Type == 0 && result.Num == (deref(val) ? 1 : 0)
+
+//@ func Int
+//@   modifies nothing
+//@   ensures[C07:integer-exact] result.Key == key && result.Type == 1 && signed64(result.Num) == val
+
+//@ func IntPtr
+//@   modifies nothing
+//@   ensures[C07:nil-pointer-as-null] val == nil ==> result.Key == key && result.Type == 5 && result.Any == nil
+//@   ensures[C07:pointee] val != nil ==> result.Key == key && result.Type == 1 && signed64(result.Num) == deref(val)
+
+//@ func Uint
+//@   modifies nothing
+//@   ensures[C07:unsigned-exact] result.Key == key && result.Type == 2 && result.Num == val
+
+//@ func UintPtr
+//@   modifies nothing
+//@   ensures[C07:nil-pointer-as-null] val == nil ==> result.Key == key && result.Type == 5 && result.Any == nil
+//@   ensures[C07:pointee] val != nil ==> result.Key == key && result.Type == 2 && result.Num == deref(val)
+
+//@ func Float[float64]
+//@   modifies nothing
+//@   ensures[C07:float-bit-exact] result.Key == key && result.Type == 3 && result.Num == val
+
+//@ func Float[float32]
+//@   modifies nothing
+//@   ensures[C07:float32-widened] result.Key == key && result.Type == 3 && result.Num == f32_to_f64(val)
+
+//@ func FloatPtr[float64]
+//@   modifies nothing
+//@   ensures[C07:nil-pointer-as-null] val == nil ==> result.Key == key && result.Type == 5 && result.Any == nil
+//@   ensures[C07:pointee] val != nil ==> result.Key == key && result.Type == 3 && result.Num == deref(val)
+
+//@ func FloatPtr[float32]
+//@   modifies nothing
+//@   ensures[C07:nil-pointer-as-null] val == nil ==> result.Key == key && result.Type == 5 && result.Any == nil
+//@   ensures[C07:pointee] val != nil ==> result.Key == key && result.Type == 3 && result.Num == f32_to_f64(deref(val))
+
+//@ func StringPtr
+//@   modifies nothing
+//@   ensures[C07:nil-pointer-as-null] val == nil ==> result.Key == key && result.Type == 5 && result.Any == nil
+//@   ensures[C07:pointee] val != nil ==> result.Key == key && result.Type == 4 && dyn(result.Any, *byte) && str_of(as(result.Any, *byte), result.Num) == deref(val)
+
+//@ func Array
+//@   modifies nothing
+//@   ensures[C07:array] result.Key == key && result.Type == 6 && result.Any == val
+
+//@ func Object
+//@   modifies nothing
+//@   ensures[C07:object] result.Key == key && result.Type == 7 && dyn(result.Any, []Field) && as(result.Any, []Field) == fields
+
+//@ func FieldsFromMap
+//@   modifies nothing
+//@   ensures[C07:from-map] result.Key == "" && result.Type == 8 && dyn(result.Any, gomap[string]any) && as(result.Any, gomap[string]any) == m
+
+//@ func Bools
+//@   modifies nothing
+//@   ensures[C07:slice-as-array] result.Key == key && result.Type == 6 && implements(result.Any, ArrayValue)
+
+//@ func Ints
+//@   modifies nothing
+//@   ensures[C07:slice-as-array] result.Key == key && result.Type == 6 && implements(result.Any, ArrayValue)
+
+//@ func Uints
+//@   modifies nothing
+//@   ensures[C07:slice-as-array] result.Key == key && result.Type == 6 && implements(result.Any, ArrayValue)
+
+//@ func Floats
+//@   modifies nothing
+//@   ensures[C07:slice-as-array] result.Key == key && result.Type == 6 && implements(result.Any, ArrayValue)
+
+//@ func Strings
+//@   modifies nothing
+//@   ensures[C07:slice-as-array] result.Key == key && result.Type == 6 && implements(result.Any, ArrayValue)
+
+//@ func Msg
+//@   modifies nothing
+//@   ensures[C07:msg] result.Key == "msg" && result.Type == 4 && dyn(result.Any, *byte) && str_of(as(result.Any, *byte), result.Num) == msg
 
